@@ -221,6 +221,16 @@ class Model:
             ov[fn_] = g_replace
         for fn_ in (_os.remove, _os.unlink):
             ov[fn_] = g_remove
+        import fnmatch as _fn
+        import glob as _glob
+
+        def g_glob(interp, pattern, *x, **k):
+            # the files a pattern names are those of the ghost file system (the output file, scratch files the writer created), never the real one
+            pat = _os.fspath(pattern)
+            return sorted(f for f in ghost_fs(ops_) if isinstance(f, str) and _fn.fnmatchcase(f, pat))
+
+        ov[_glob.glob] = g_glob
+        ov[_glob.iglob] = lambda interp, pattern, *x, **k: iter(g_glob(interp, pattern))
         ov[_os.path.exists] = lambda interp, pth: (pth in ghost_fs(ops_)) if isinstance(pth, str) else False
         ov[_os.path.lexists] = ov[_os.path.exists]
         ov[_os.path.isfile] = ov[_os.path.exists]
